@@ -90,7 +90,7 @@ def run(ctx):
         via = rng.choice(["fn", "fn", "open", "opts"])
         keyed = rng.random() < 0.75
         key = f"link-{i}"
-        pre = rng.random() < 0.2
+        pre = rng.random() < 0.3
         sri = ref.sri("sha256", data)
         cpath = ref.content_path_sri(cache, sri)
         steps = []
@@ -161,6 +161,15 @@ def run(ctx):
             # rejected like an ordinary write: key must not be mapped
             if keyed and not (ev.is_ok(lr[0]) and lr[0]["ok"]["entry"] is None):
                 ctx.violation(sig + "|rejected-but-mapped", f"link_to rejected with {v} but the key is mapped: {ev.brief(lr[0])}", det)
+            if pre:
+                try:
+                    okp = stat.S_ISREG(os.lstat(cpath).st_mode) and open(cpath, "rb").read() == data
+                except OSError:
+                    okp = False
+                if not okp:
+                    ctx.violation(sig + "|rejected-but-existing-content-lost",
+                                  f"link_to was rejected with {v}, but the regular content that was stored at that address "
+                                  f"before is gone or changed", det)
             ctx.case(distinct_key=(mode, ep, lclass, pathkind, pre, "rejected"))
             ctx.count("enforcement_rejections")
             continue
